@@ -187,3 +187,83 @@ Definition direct_auth_prop (d : bytes) (registered : list bytes) (produces : li
            (cached : option bytes) (specs : list spec) (head : bool) (auth : option (bytes * basic_attempt))
            (dt : data) (tag : bytes) (o : obs) : bool :=
   direct_prop d registered produces rt cached specs head (marker_after auth) dt tag o.
+
+(* ---- security requirements with several alternatives (each a list of schemes that must all accept) ---- *)
+Definition scheme_accepts (s : sec_cfg) (x : sec_scheme) : bool :=
+  match scheme_res s x with SOk => true | _ => false end.
+(* an alternative admits the request when it names at least one scheme and every scheme accepts *)
+Definition alt_admits (s : sec_cfg) (alt : list sec_scheme) : bool :=
+  match alt with [] => false | _ => forallb (scheme_accepts s) alt end.
+Definition is_anonymous (alt : list sec_scheme) : bool := match alt with [] => true | _ => false end.
+(* the error of an alternative: that of its first scheme that does not accept, if that scheme refuses with an error
+   (a scheme that does not apply ends the alternative without an error) *)
+Fixpoint alt_error (s : sec_cfg) (alt : list sec_scheme) : option nat :=
+  match alt with
+  | [] => None
+  | x :: r => match scheme_res s x with
+              | SOk => alt_error s r
+              | SErr c => Some c
+              | SNotApplies => None
+              end
+  end.
+(* the basic scheme is consulted in an alternative when every scheme before it accepts *)
+Fixpoint basic_consulted_in (s : sec_cfg) (alt : list sec_scheme) : bool :=
+  match alt with
+  | [] => false
+  | SBasic :: _ => true
+  | x :: r => scheme_accepts s x && basic_consulted_in s r
+  end.
+(* the alternatives that are examined: all of them up to and including the first that admits *)
+Fixpoint examined (s : sec_cfg) (alts : list (list sec_scheme)) : list (list sec_scheme) :=
+  match alts with
+  | [] => []
+  | a :: r => if alt_admits s a then [a] else a :: examined s r
+  end.
+Fixpoint last_some {A} (l : list (option A)) : option A :=
+  match l with
+  | [] => None
+  | x :: r => match last_some r with Some y => Some y | None => x end
+  end.
+(* the request is admitted: no requirement at all, or some alternative admits it, or the anonymous alternative
+   is there and no alternative met an error *)
+Definition sec_admitted (s : sec_cfg) : bool :=
+  match sec_alts s with
+  | [] => true
+  | alts => existsb (alt_admits s) alts ||
+            (existsb is_anonymous alts && forallb (fun a => match alt_error s a with None => true | Some _ => false end) alts)
+  end.
+(* the error a refused request is answered with: the last error met, 401 when there was none *)
+Definition sec_refusal_code (s : sec_cfg) : nat :=
+  match last_some (map (alt_error s) (sec_alts s)) with Some c => c | None => 401 end.
+(* a failed basic-auth attempt was made: the basic scheme was consulted in an examined alternative and did not accept;
+   every error answer given afterwards names the effective realm in its challenge (empty: no challenge) *)
+Definition sec_challenge_realm (s : sec_cfg) : bytes :=
+  if existsb (basic_consulted_in s) (examined s (sec_alts s)) && attempt_fails (sec_attempt s)
+  then effective_realm (sec_realm s) else [].
+
+(* a request through the handler of an operation with any security requirement: a refused request is answered by the
+   error responder (the handler does not run); an admitted one goes on as in serve_prop; every error answer
+   carries the challenge when a basic-auth attempt failed on the way *)
+Definition sec_prop (d : bytes) (registered : list bytes) (rp : list bytes) (codes : list nat)
+           (specs : list spec) (head : bool) (s : sec_cfg) (dt : data) (tag : bytes)
+           (ran : bool) (o : obs) : bool :=
+  let offers := respond_offers d rp in
+  let rprop := respond_prop registered (negotiated specs offers) (negotiated_or_json specs offers) (Some codes) true head
+                            (sec_challenge_realm s) in
+  if sec_admitted s then
+    if acceptable specs rp then ran && rprop dt tag o
+    else negb ran && rprop (DError 406) tag o
+  else negb ran && rprop (DError (sec_refusal_code s)) tag o.
+
+(* ---- histories: every answer of a sequence of requests on one Context is judged as a single request is,
+   and equals what the same request is answered by a fresh Context ---- *)
+Definition obs_eqb (a b : obs) : bool :=
+  Nat.eqb (ob_panic a) (ob_panic b) && bytes_eqb (ob_ctype a) (ob_ctype b) && Nat.eqb (ob_status a) (ob_status b) &&
+  list_eqb bytes_eqb (ob_www a) (ob_www b) && list_eqb call_eqb (ob_calls a) (ob_calls b) &&
+  bytes_eqb (ob_body a) (ob_body b) && nat_list_eqb (ob_errs a) (ob_errs b).
+Definition req_prop (d : bytes) (registered : list bytes) (q : hreq) (tag : bytes) (ran : bool) (o : obs) : bool :=
+  sec_prop d registered (rt_produces (hq_route q)) (rt_codes (hq_route q)) (hq_specs q) (hq_head q) (hq_sec q)
+           (hq_result q) tag ran o.
+(* whether the handler runs *)
+Definition req_runs (q : hreq) : bool :=
+  sec_admitted (hq_sec q) && acceptable (hq_specs q) (rt_produces (hq_route q)).
